@@ -471,7 +471,7 @@ func refLookup(n, shape int, min, max dmDim) (dm.Symbol, bool) {
 }
 
 type dmCase struct {
-	Kind     string // "dm-lookup" | "dm-writer"
+	Kind     string // "dm-lookup" | "dm-writer" | "dm-hinted"
 	N        int    // data codewords
 	Shape    int
 	Min, Max dmDim
@@ -686,6 +686,161 @@ func runDM(name string, cases []dmCase, chunk int) {
 	chk.Sample(name, cases[len(cases)/3])
 }
 
+// ------------------------------------------------------------------ Data Matrix, non-digit content
+
+// families of content whose codeword count depends on the library's encodation choice. The oracle
+// is differential and needs no model of that choice: U = the symbol written with the shape hint
+// only (it must decode, with the reference stream decoder, to the content - otherwise the case is
+// outside this property and skipped). With size hints added the writer must then either refuse or
+// return a symbol that (a) satisfies the hints, (b) still holds the content, and (c) is U's size
+// whenever U's size is admissible (U is the smallest symbol for the content).
+var dmFamilies = []struct{ name, unit string }{
+	{"upper(C40)", "A"}, {"lower(Text)", "a"}, {"x12", ">"}, {"edifact", "@"}, {"latin1(Base256)", "é"}, {"mixed", "Ab1 "},
+}
+
+func dmContent(fam, n int) string {
+	u := []rune(dmFamilies[fam].unit)
+	var sb strings.Builder
+	for i := 0; i < n; i++ {
+		sb.WriteRune(u[i%len(u)])
+	}
+	return sb.String()
+}
+
+type dmRead struct {
+	w, h   int
+	text   string
+	ok     bool // symbol returned
+	decErr error
+	pm     string
+	site   string
+	err    error
+}
+
+func dmWriteRead(content string, shape int, min, max dmDim) (r dmRead) {
+	hints := map[gozxing.EncodeHintType]interface{}{gozxing.EncodeHintType_DATA_MATRIX_SHAPE: shapes[shape]}
+	if min.W >= 0 {
+		hints[gozxing.EncodeHintType_MIN_SIZE] = min.lib()
+	}
+	if max.W >= 0 {
+		hints[gozxing.EncodeHintType_MAX_SIZE] = max.lib()
+	}
+	var bm *gozxing.BitMatrix
+	r.pm, r.site = mc.Guard(func() {
+		bm, r.err = datamatrix.NewDataMatrixWriter().Encode(content, gozxing.BarcodeFormat_DATA_MATRIX, 0, 0, hints)
+	})
+	if r.pm != "" || bm == nil {
+		return
+	}
+	r.ok, r.w, r.h = true, bm.GetWidth(), bm.GetHeight()
+	m := make([][]bool, r.h)
+	for y := range m {
+		m[y] = make([]bool, r.w)
+		for x := range m[y] {
+			m[y][x] = bm.Get(x, y)
+		}
+	}
+	cw, sym, e := dm.ReadCodewords(m)
+	if e != nil {
+		r.decErr = e
+		return
+	}
+	r.text, r.decErr = dm.DecodeStream(cw[:sym.DataCW])
+	return
+}
+
+func admissible(w, h, shape int, min, max dmDim) bool {
+	if shape == 1 && w != h || shape == 2 && w == h {
+		return false
+	}
+	if min.W >= 0 && (w < min.W || h < min.H) {
+		return false
+	}
+	if max.W >= 0 && (w > max.W || h > max.H) {
+		return false
+	}
+	return true
+}
+
+func dmHintedOne(l *mc.Local, c dmCase, fam int, u dmRead) {
+	content := dmContent(fam, c.N)
+	l.Beat(c.String())
+	r := dmWriteRead(content, c.Shape, c.Min, c.Max)
+	l.Count("evaluations", 1)
+	if r.pm != "" {
+		chk.Violation("C13/panic/"+r.site, fmt.Sprintf("%v: DataMatrixWriter.Encode panics: %s", c, r.pm), c)
+		return
+	}
+	l.Distinct("nontrivial", fmt.Sprint("dh", fam, c.Shape, c.Min, c.Max, r.w, r.h))
+	uAdm := admissible(u.w, u.h, c.Shape, c.Min, c.Max)
+	if !r.ok {
+		l.Distinct("outcomes", "dmh/refused")
+		if uAdm {
+			chk.Violation("C13/dm/writer-size/refused", fmt.Sprintf("%v (%d characters %q...): refused (%v) although the %dx%d symbol chosen without size hints is admissible", c, c.N, dmFamilies[fam].unit, r.err, u.w, u.h), c)
+		}
+		return
+	}
+	l.Distinct("outcomes", fmt.Sprint("dmh/", r.w, "x", r.h))
+	if !admissible(r.w, r.h, c.Shape, c.Min, c.Max) {
+		chk.Violation("C13/dm/hint-violated", fmt.Sprintf("%v: %dx%d symbol written, which violates the shape/size hints", c, r.w, r.h), c)
+		return
+	}
+	if r.decErr != nil || r.text != content {
+		l.Count("dm_overflow_not_refused/"+dmFamilies[fam].name, 1)
+		chk.Violation("C13/dm/overflow-not-refused", fmt.Sprintf("%v (%d x %q): without size hints the content needs %dx%d; with the hints a %dx%d symbol is returned that does not hold the content (the reference decoder reads %q, err %v) instead of a refusal", c, c.N, dmFamilies[fam].unit, u.w, u.h, r.w, r.h, r.text, r.decErr), c)
+		return
+	}
+	if uAdm && (r.w != u.w || r.h != u.h) {
+		chk.Violation("C13/dm/writer-size/hinted-not-smallest", fmt.Sprintf("%v: %dx%d written although the smaller admissible %dx%d holds the content", c, r.w, r.h, u.w, u.h), c)
+	}
+}
+
+func dmNonDigit() {
+	dims := dmDims()
+	nilD := dmDim{-1, -1}
+	maxN := chk.Pick(100, 400)
+	type job struct{ fam, n int }
+	var jobs []job
+	for n := 1; n <= maxN; n++ { // shortest first: the first violation reported is a minimal one
+		for f := range dmFamilies {
+			jobs = append(jobs, job{f, n})
+		}
+	}
+	chk.Range(fmt.Sprintf("DM writer, non-digit content: 6 families x length 1..%d x 3 shapes x {(min,nil),(nil,max) over the 30 symbol sizes}: hinted result vs the unhinted symbol (differential) [%d writer calls]", maxN, len(jobs)*3*61), len(jobs),
+		func(i int) string { return fmt.Sprint(dmFamilies[jobs[i].fam].name, " n=", jobs[i].n) },
+		func(l *mc.Local, i int) {
+			j := jobs[i]
+			content := dmContent(j.fam, j.n)
+			for s := range shapes {
+				u := dmWriteRead(content, s, nilD, nilD)
+				l.Count("evaluations", 1)
+				if u.pm != "" {
+					chk.Violation("C13/panic/"+u.site, fmt.Sprintf("DataMatrixWriter.Encode(%d x %q, shape %s) panics: %s", j.n, dmFamilies[j.fam].unit, shapeNames[s], u.pm),
+						dmCase{Kind: "dm-hinted", N: j.n, Shape: s, Min: nilD, Max: nilD, Family: dmFamilies[j.fam].name})
+					continue
+				}
+				if !u.ok || u.decErr != nil || u.text != content {
+					l.Count("dm_nondigit_premise_not_met", 1) // refused (rectangles are small) or not this property's business
+					continue
+				}
+				for _, d := range dims[1:31] {
+					dmHintedOne(l, dmCase{Kind: "dm-hinted", N: j.n, Shape: s, Min: d, Max: nilD, Family: dmFamilies[j.fam].name}, j.fam, u)
+					dmHintedOne(l, dmCase{Kind: "dm-hinted", N: j.n, Shape: s, Min: nilD, Max: d, Family: dmFamilies[j.fam].name}, j.fam, u)
+				}
+			}
+		})
+	chk.Sample("dm-hinted", dmCase{Kind: "dm-hinted", N: 6, Shape: 0, Min: nilD, Max: dmDim{10, 10}, Family: "lower(Text)"})
+}
+
+func famIndex(name string) int {
+	for i, f := range dmFamilies {
+		if f.name == name {
+			return i
+		}
+	}
+	return 0
+}
+
 // ------------------------------------------------------------------ main
 
 type replayCase struct {
@@ -698,7 +853,7 @@ func main() {
 	chk.Assume("reference capacities and bit-stream lengths come from verif/ref/qr (written from ISO/IEC 18004), the symbol table order from verif/ref/dm (ISO/IEC 16022 Table 7, square before rectangle at equal capacity)")
 	chk.Assume("content of one mode only (the library never mixes modes): digits '7', 'A', 'a' (no CHARACTER_SET hint, so no ECI header), kanji U+6F22 under the Shift_JIS hint; the mask is forced to 0 because it takes no part in the version choice")
 	chk.Assume("MIN_SIZE/MAX_SIZE bound width and height separately (symbol.width >= min.width && symbol.height >= min.height, likewise <= for max), as SymbolInfo_Lookup documents by its code; a forced version outside 1..40 can only be refused")
-	chk.Assume("Data Matrix writer level: 2n digits are exactly n data codewords (digit pairs); other content is not used because its codeword count depends on the encodation choice, which is not part of this property")
+	chk.Assume("Data Matrix writer level: 2n digits are exactly n data codewords (digit pairs). For other content the codeword count depends on the encodation choice, which is not part of this property: there the oracle is differential (symbol written with size hints vs. the symbol written without them, both read with verif/ref/dm's stream decoder): a hinted symbol must satisfy the hints, still hold the content, and equal the unhinted size when that is admissible")
 	if chk.ReplayFile() != "" {
 		var k replayCase
 		mc.LoadReplay(chk.ReplayFile(), &k)
@@ -722,6 +877,15 @@ func main() {
 				fmt.Printf("replay %v\n", c)
 				dmWriterOne(l, c)
 			}
+		case "dm-hinted":
+			var c dmCase
+			if mc.LoadReplay(chk.ReplayFile(), &c) == nil {
+				fmt.Printf("replay %v\n", c)
+				f := famIndex(c.Family)
+				u := dmWriteRead(dmContent(f, c.N), c.Shape, dmDim{-1, -1}, dmDim{-1, -1})
+				fmt.Printf("without size hints: symbol=%v %dx%d decodes to content=%v\n", u.ok, u.w, u.h, u.text == dmContent(f, c.N))
+				dmHintedOne(l, c, f, u)
+			}
 		}
 		l.Merge()
 		chk.Finish()
@@ -733,5 +897,6 @@ func main() {
 	qrHeaders()
 	dmLookups()
 	dmWriter()
+	dmNonDigit()
 	chk.Finish()
 }
